@@ -236,7 +236,8 @@ func c10prog(ps string, res *result) func() {
 			// the window has already changed size (not yet noticed) and a key and a mouse
 			// report are waiting on the tty when the two calls start
 			r.tty.w, r.tty.h = 5, 2
-			r.tty.inject([]byte("k\x1b[<0;9;9M"))
+			r.tty.inject([]byte("k")) // (two reads' worth: the second one can complete before the first is consumed)
+			r.tty.inject([]byte("\x1b[<0;9;9M"))
 		}
 		run("A:"+ops[p.a].name, p.a)
 		run("B:"+ops[p.b].name, p.b)
